@@ -15,6 +15,7 @@ import (
 	"encoding/json"
 	"fmt"
 	"math/rand"
+	"strconv"
 	"strings"
 	"testing"
 )
@@ -216,6 +217,40 @@ func (c *vfCodec) runViaStamp(id, cls, text string) {
 	c.n++
 }
 
+// CSeq = 1*DIGIT LWS Method: every spelling of the number (leading zeros) and of the separator is re-encoded as received
+func (c *vfCodec) runCSeq() {
+	k := 0
+	for _, num := range []string{"0", "1", "7", "007", "4711", "2147483647", "0000000001"} {
+		for _, sep := range []string{" ", "  ", "\t", " \t "} {
+			for _, method := range []string{"INVITE", "ACK", "NOTIFY", "X-CUSTOM_1", "invite"} {
+				k++
+				text := num + sep + method
+				re1, re2, errS := "", "", ""
+				acc := vfM{}
+				pm := vfCatch(func() {
+					v, err := ParseCSeq(text)
+					if err != nil {
+						errS = err.Error()
+						return
+					}
+					acc["seq"], acc["method"] = v.Seq, vfIntern.Id(v.Method)
+					re1 = v.String()
+					v2, err := ParseCSeq(re1)
+					if err != nil {
+						errS = "second round: " + err.Error()
+						return
+					}
+					re2 = v2.String()
+				})
+				want, _ := strconv.Atoi(num)
+				c.tr.Emit(vfM{"ev": "codec", "case": fmt.Sprintf("cseq%d", k), "cls": "cseq hdr=CSeq", "kind": "cseq", "hdr": "CSeq", "conc": []vfAEnt{}, "re1": []vfAEnt{}, "re2": []vfAEnt{},
+					"text": vfIntern.Id(text), "enc1": vfIntern.Id(re1), "enc2": vfIntern.Id(re2), "want": vfM{"seq": want, "method": vfIntern.Id(method)}, "acc": acc, "err": errS, "panic": pm})
+				c.n++
+			}
+		}
+	}
+}
+
 // one (text, header kind): decode with the real code, re-encode, decode and re-encode again
 func (c *vfCodec) run(id, cls, hdr, text string) {
 	var conc, re1, re2 []vfAEnt
@@ -412,6 +447,7 @@ func TestVfCodec(t *testing.T) {
 	tr := vfOpenTrace(t, "VERIF_TRACE")
 	defer tr.Close()
 	c := &vfCodec{tr: tr, rnd: vfRand(14)}
+	c.runCSeq()
 	stride := vfEnvInt("VERIF_STRIDE", 1)
 	nkinds := vfEnvInt("VERIF_NKINDS", 2)
 	k := 0
